@@ -7,6 +7,7 @@ package main
 
 import (
 	"encoding/json"
+	"errors"
 	"flag"
 	"fmt"
 	"os"
@@ -36,6 +37,20 @@ func gen(tier string, out *vlib.Out) {
 		"new cowof 1,2,3,4\nrangemut 5 1 7",
 		"new linked\nget 0\ndelete 0\nadd 1 5\nadd 0 5\nadd 0 6\nadd 2 7\nadd 1 8\nget 3\nget 2\ndelete 3\ndelete 0",
 		"new array 0\nasslice\nrange\nget 0\nset 0 1\ndelete 0\ndelete -1",
+		// Range must hand the callback's error back and stop; a copy-on-write Range shows the snapshot
+		// whatever a re-entrant writer does (Set/Add/Delete anywhere, not only at the end)
+		"new arrayof 1,2,3\nrangestop 0\nrangestop 2\nrangestop 3\nrangestop -1",
+		"new linkedof 1,2,3\nrangestop 1\nrangestop 2",
+		"new cowof 1,2,3\nrangestop 1\nrangedo 1 set 0 9\nrangedo 0 delete 0\nrangedo 1 add 0 5\nrangedo 0 set 2 8\nrangedo 5 set 0 1\nrangedo 0 set 7 1",
+		"new conc-array 4\nappend 1,2\nrangestop 0\nrangestop 1",
+		"new conc-cow\nappend 1,2\nrangestop 0",
+		// AsSlice of an empty list (never filled / emptied again) is non-nil, for every implementation
+		"new linked\nasslice\nappend 1\ndelete 0\nasslice",
+		"new cow\nasslice\nappend 1\ndelete 0\nasslice",
+		"new arrayof 1\ndelete 0\nasslice",
+		"new conc-linked\nasslice",
+		"new conc-cow\nasslice",
+		"new conc-array 0\nasslice",
 	}
 	for _, c := range corpus {
 		for _, l := range strings.Split(c, "\n") {
@@ -162,6 +177,27 @@ func gen(tier string, out *vlib.Out) {
 						}
 						out.Line("append %s", vlib.Ints(xs))
 						n += k
+					case pick < 85 && (base == "cow" || base == "cowof") && !strings.HasPrefix(kind, "conc-") && r.Chance(50):
+						// one arbitrary re-entrant writer (or reader) call during Range
+						k := r.Range(0, n)
+						switch r.Intn(4) {
+						case 0:
+							out.Line("rangedo %d set %d %d", k, idx(n-1), next())
+						case 1:
+							i := idx(n)
+							out.Line("rangedo %d add %d %d", k, i, next())
+							if k < n && i >= 0 && i <= n {
+								n++
+							}
+						case 2:
+							i := idx(n - 1)
+							out.Line("rangedo %d delete %d", k, i)
+							if k < n && i >= 0 && i < n {
+								n--
+							}
+						default:
+							out.Line("rangedo %d get %d", k, idx(n-1))
+						}
 					case pick < 85 && (base == "cow" || base == "cowof") && !strings.HasPrefix(kind, "conc-"):
 						// re-entrant writers during Range: a copy-on-write list must show the snapshot
 						d := r.Range(0, 2)
@@ -180,8 +216,11 @@ func gen(tier string, out *vlib.Out) {
 						}
 					case pick < 88:
 						out.Line("asslice")
-					case pick < 94:
+					case pick < 91:
 						out.Line("range")
+					case pick < 94:
+						// callback fails at index k (sometimes beyond the end: no failure)
+						out.Line("rangestop %d", idx(n-1))
 					default:
 						out.Line("len")
 					}
@@ -391,6 +430,57 @@ func run(ops []string, out *vlib.Out, st *stats) {
 				} else {
 					res = "ok:" + render(seenVals)
 				}
+			case "rangestop":
+				// the callback fails when shown index k: Range must return that very error; what it
+				// showed up to and including k must be the prefix of the sequence (more = how many
+				// further elements it showed after the failure)
+				k, _ := strconv.Atoi(w[1])
+				var seenVals []int
+				idxOK := true
+				err := l.Range(func(i int, t int) error {
+					if i != len(seenVals) {
+						idxOK = false
+					}
+					seenVals = append(seenVals, t)
+					if i == k {
+						return errStop
+					}
+					return nil
+				})
+				more := 0
+				if k >= 0 && len(seenVals) > k+1 {
+					more = len(seenVals) - (k + 1)
+					seenVals = seenVals[:k+1]
+				}
+				switch {
+				case !idxOK:
+					res = "err:range"
+				case err == nil:
+					res = "ok:" + render(seenVals)
+				case errors.Is(err, errStop):
+					res = "stop:" + render(seenVals)
+				default:
+					res = "err:range"
+				}
+				extra = fmt.Sprintf(" more=%d", more)
+			case "rangedo":
+				// Range whose callback, when shown index k, performs one ordinary call on the list
+				k, _ := strconv.Atoi(w[1])
+				nested := "-"
+				var seenVals []int
+				err := l.Range(func(i int, t int) error {
+					if i == k {
+						nested = apply(l, w[2:])
+					}
+					seenVals = append(seenVals, t)
+					return nil
+				})
+				if err != nil {
+					res = "err:range"
+				} else {
+					res = "ok:" + render(seenVals)
+				}
+				extra = " nested=" + nested
 			case "range":
 				var seenVals []int
 				idxOK := true
@@ -439,6 +529,26 @@ func run(ops []string, out *vlib.Out, st *stats) {
 		out.Line("%s => %s %s%s", line, res, after, extra)
 	}
 	st.Distinct = len(seen)
+}
+
+var errStop = errors.New("zzverif: stop")
+
+// apply performs one get/add/set/delete/append call (the nested call of rangedo)
+func apply(l list.List[int], w []string) string {
+	at := func(i int) int { v, _ := strconv.Atoi(w[i]); return v }
+	switch w[0] {
+	case "get":
+		return okv(l.Get(at(1)))
+	case "append":
+		return vlib.Err(l.Append(vlib.ParseInts(w[1])...))
+	case "add":
+		return vlib.Err(l.Add(at(1), at(2)))
+	case "set":
+		return vlib.Err(l.Set(at(1), at(2)))
+	case "delete":
+		return okv(l.Delete(at(1)))
+	}
+	panic("nested op " + w[0])
 }
 
 func argTail(a []string) string {
